@@ -72,10 +72,10 @@ func SchedPlan(t *testing.T, tier string) *h.Plan {
 	quick := tier != "thorough"
 	p := &h.Plan{
 		Prop: "C08", Level: "exploration", Engine: "sched",
-		Runs:     pick(quick, 80000, 20000000),
-		Budget:   pick(quick, 25*time.Second, 12*time.Minute),
-		Gen:      h.GenC08,
-		Minimise: true,
+		Runs:        pick(quick, 80000, 20000000),
+		Budget:      pick(quick, 25*time.Second, 12*time.Minute),
+		Gen:         h.GenC08,
+		Minimise:    true,
 		ExtraShrink: ShrinkSched,
 	}
 	p.Exec = func(tr *h.Trace, st *h.Stats) *h.Violation { return RunSched(t, tr, st) }
